@@ -498,6 +498,12 @@ class Interp:
         if k == "Ref" or k == "AddressOf":
             place = v[2] if k == "Ref" else v[1]
             mut = (k == "Ref" and v[1] != "Shared") or (k == "AddressOf")
+            pj = place["projection"]
+            if len(pj) == 1 and kind_of(pj[0])[0] == "Deref":
+                # reborrow `&*x` of a reference that is itself a model value (e.g. a chunk of <[T]>::chunks)
+                inner = st.store.get((fr.id, place["local"]))
+                if type(inner) is Md and inner.kind == "iter":
+                    return inner
             try:
                 key, proj = self.resolve(st, fr, place)
             except Unsupported:
